@@ -13,7 +13,7 @@ if [ -n "$runtests" ]; then
   ( cd "$scratch" && go test -vet=off -count=1 ./... 2>&1 | grep -E '^(FAIL|---)' | head -5 )
 fi
 mkdir -p "$scratch/.verif"; cp /verif/known_findings.json "$scratch/.verif/"
-/verif/bin/pverif check "$ids" --repo "$scratch" --verif "$scratch/.verif" > "$scratch/.out" 2>&1; rc=$?
+"${PVERIF_BIN:-/verif/bin/pverif}" check "$ids" --repo "$scratch" --verif "$scratch/.verif" > "$scratch/.out" 2>&1; rc=$?
 [ $rc -ge 2 ] && { echo "VIOLATED CHECKER-ERROR rc=$rc: $(head -2 "$scratch/.out")"; }
 cat "$scratch/.out" | grep -E '^(VIOLATED|UNDECIDED|KNOWN-FINDING|VIOLATION|SUMMARY)' | sed "s#$scratch/##g" | cut -c1-${MUTEST_WIDTH:-420}
 exit 0
